@@ -123,7 +123,7 @@ def show(v, depth=0):
 
 
 class Node:
-    __slots__ = ("id", "kind", "a", "loc", "func", "stack", "stmt")
+    __slots__ = ("id", "kind", "a", "loc", "func", "stack", "stmt", "span")
 
     def __init__(self, id, kind, attrs, loc, func, stack, stmt):
         self.id = id
@@ -133,6 +133,7 @@ class Node:
         self.func = func  # qualname of the function whose code this is
         self.stack = stack  # tuple of (qualname, recv descr) activations
         self.stmt = stmt  # normalised source text of the statement
+        self.span = (loc[1], loc[1])
 
     def __getitem__(self, k):
         return self.a.get(k)
